@@ -511,8 +511,8 @@ impl Ctx {
     /// unless violations were already found (then those are reported, exit 1).
     pub fn case_timeout(&self) -> std::time::Duration {
         let secs = std::env::var("VERIF_CASE_TIMEOUT").ok().and_then(|s| s.parse::<u64>().ok()).unwrap_or(match self.tier {
-            Tier::Quick => 120,
-            Tier::Thorough => 900,
+            Tier::Quick => 300,
+            Tier::Thorough => 1800,
         });
         std::time::Duration::from_secs(secs)
     }
